@@ -407,6 +407,77 @@ def run_orders(case):
     return r
 
 
+# -- Datasets: several bands on one grid, each with its own chunking / dtype / nodata -----------------------------------
+DS_CHUNKINGS = ((4, 4), (3, 4), (1, 1), (8, 8), (5, 7), ((2, 1, 3, 2), (4, 4)), ((8,), (1, 7)))
+
+
+def gen_dsbands(tier):
+    dests = ("identical", "subpixel-shift", "scale2", "mirror-x", "outside-left") + (("rot-coarse", "scale-half", "bigger") if tier == "thorough" else ())
+
+    def g():
+        # every ordered pair of source chunkings for two bands (+ a third band repeating the first), per destination
+        for dest in dests:
+            for c1 in DS_CHUNKINGS:
+                for c2 in DS_CHUNKINGS:
+                    for dc in ((3, 4), (1, 1)) if tier == "thorough" else ((3, 4),):
+                        for kinds in ((("int16", "both"), ("int16", "both")), (("float32", "none"), ("uint8", "src0"))):
+                            yield (dest, c1, c2, dc, kinds)
+
+    return g
+
+
+def run_dsbands(case):
+    """xr_reproject of a Dataset whose bands share the GeoBox but are chunked (and typed) differently: every band of the
+    chunked result equals the in-memory result and the brute-force reference, as if it had been reprojected alone."""
+    import xarray as xr  # pylint: disable=import-outside-toplevel
+
+    dest, c1, c2, dc, kinds = case
+    shape = (8, 8)
+    P, dshape = DESTS[dest]
+    dshape = dshape or shape
+    sg = GeoBox(shape, SRC_A, CRS_M)
+    dg = GeoBox(dshape, SRC_A * P, CRS_M)
+    same_chunks = tuple(c1) == tuple(c2)
+    r = R(outcome=f"ds-bands:{dest}:{'same' if same_chunks else 'different'}-chunks")
+    bands, lazy_vars, mem_vars = {}, {}, {}
+    for name, ch, (dtype, nds) in (("a", c1, kinds[0]), ("b", c2, kinds[1]), ("c", c1, kinds[0])):
+        src_nd, _ = nodata_vals(dtype, nds)
+        data = src_data(shape, dtype, 0)
+        if name == "c":
+            data = data[::-1].copy()  # same layout as band a, other pixels
+        kw = dict(nodata=src_nd) if src_nd is not None else {}
+        bands[name] = (data, dtype, src_nd)
+        mem_vars[name] = wrap_xr(data, sg, **kw)
+        lazy_vars[name] = wrap_xr(da.from_array(data, chunks=tuple(ch)), sg, **kw)
+    whole = xr_reproject(xr.Dataset(mem_vars), dg, resampling="nearest")
+    try:
+        lazy = xr_reproject(xr.Dataset(lazy_vars), dg, resampling="nearest", chunks=tuple(dc))
+    except Exception as e:  # pylint: disable=broad-except
+        if not core.in_repo_tb(e):
+            raise
+        return r.fail(f"ds-bands:raised:{type(e).__name__}:{'same' if same_chunks else 'different'}-chunks", f"{case}: {type(e).__name__}: {e}")
+    for name, (data, dtype, src_nd) in bands.items():
+        try:
+            chunked, _ = execute(lazy[name].data)
+        except BlockMismatch as e:
+            r.fail(f"ds-bands:block-shape:{name}", f"{case}: {e}")
+            continue
+        fill = expected_fill(dtype, src_nd, None)
+        ref = brute_nearest(data, P, dshape, fill)
+        covered = ref != fill if not (isinstance(fill, np.floating) and np.isnan(fill)) else ~np.isnan(ref)
+        r.nontrivial = r.nontrivial or bool(covered.any())
+        cls = f"band-{name}:{'same' if same_chunks else 'different'}-chunks"
+        if not same(chunked, whole[name].values):
+            r.fail(f"ds-bands:chunked!=whole:{_classify(chunked, whole[name].values, covered, fill)}:{cls}",
+                   f"{case} band {name}: chunked vs in-memory differ at {_diff(chunked, whole[name].values)}")
+        if not same(chunked, ref):
+            r.fail(f"ds-bands:chunked!=reference:{_classify(chunked, ref, covered, fill)}:{cls}",
+                   f"{case} band {name}: chunked vs brute-force reference differ at {_diff(chunked, ref)}")
+        if lazy[name].odc.geobox != dg:
+            r.fail("ds-bands:geobox", f"{case} band {name}: {lazy[name].odc.geobox} != destination")
+    return r
+
+
 # -- joint evaluation: two reprojections in one graph must not interfere ---------------------------------------
 VARIATIONS = ("dst_nodata", "src_nodata", "resampling", "dst-shift", "dst-chunks", "time-step", "dtype")
 
@@ -704,6 +775,8 @@ def slices(tier):
                  "leading time / trailing band / both, every chunking of a 3-long extra axis x spatial chunkings x destinations"),
         e1.Slice("masked-source", gen_masked(tier), run_masked,
                  "sources holding nodata pixels (isolated / a whole chunk / half / all / one plane) x nodata settings x chunkings x destinations"),
+        e1.Slice("dataset-bands", gen_dsbands(tier), run_dsbands,
+                 "Dataset of three bands on one GeoBox, every ordered pair of source chunkings (regular and irregular) x destinations"),
         e1.Slice("joint", gen_joint(tier), run_joint, "pairs of reprojections differing in one parameter, computed in one graph"),
         e1.Slice("same-crs", gen_main(tier), run_main, "chunkings x destinations x dtypes x nodata x time"),
         e1.Slice("irregular-chunks", gen_irregular(tier), run_main,
